@@ -134,10 +134,12 @@ def _run(ck, m):
     gated = []
     for bl_i, bl in enumerate(rb.blocks):
         for s in bl['s']:
-            if s['k'] == 'assign' and s['r']['k'] == 'bin' and s['r']['op'] == 'Eq':
+            if s['k'] == 'assign' and s['r']['k'] == 'bin' and s['r']['op'] in ('Eq', 'Ne'):
                 vals = [const_val(r) for k_ in ('a', 'b') for r in origins(rb, s['r'][k_]) if r[0] == 'const']
                 if -2 in vals:
                     for (s2, tt, ft) in bool_switches(rb, local=s['l']['l']):
+                        if s['r']['op'] == 'Ne':      # `if version != MARKER { return first-conflict }`: the listing lies on the other edge
+                            tt, ft = ft, tt
                         gated += [x for x in lists if rb.dominates(tt, x) and not rb.dominates(ft, x)]
     okg = bool(lists) and all(x in gated for x in lists)
     ck.ob('C13.g', fn, 'chains-only-under-the-marker', okg,
